@@ -52,6 +52,22 @@ impl Copy for SolarTime {}
 pub struct SolarTerm { _p: u8 }
 #[verifier::external_body]
 pub struct JulianDay { _p: u8 }
+#[verifier::external_body]
+pub struct SolarDay { _p: u8 }
+#[verifier::external_body]
+pub struct LunarHour { _p: u8 }
+impl SolarDay {
+    pub uninterp spec fn jdn(&self) -> int;
+    // K (c01_k4_subtract): difference of day numbers
+    #[verifier::external_body]
+    fn subtract(&self, target: SolarDay) -> (r: isize) ensures r == self.jdn() - target.jdn() { unimplemented!() }
+}
+impl LunarHour {
+    pub uninterp spec fn h(&self) -> int;
+    // K (c09_k_hour_index): index of the double-hour in the day
+    #[verifier::external_body]
+    fn get_index_in_day(&self) -> (r: usize) ensures r == (self.h() + 1) / 2 { unimplemented!() }
+}
 
 impl SolarMonth {
     pub uninterp spec fn ord(&self) -> int;
@@ -99,6 +115,15 @@ impl SolarTime {
         requires 1 <= year <= 9999, 1 <= month <= 12, 1 <= day <= ML(12 * year + month - 1), 12 * year + month - 1 != OCT_1582, hour < 24, minute < 60, second < 60,
         ensures r.ord() == 12 * year + month - 1, r.d() == day, r.h() == hour, r.mi() == minute, r.s() == second,
     { unimplemented!() }
+    pub uninterp spec fn jdn(&self) -> int;
+    /// the absolute second is that of the date and clock reading (C01 + C12)
+    pub open spec fn wf_abs(&self) -> bool { 0 <= self.h() < 24 && 0 <= self.mi() < 60 && 0 <= self.s() < 60 && self.abs() == 86400 * self.jdn() + 3600 * self.h() + 60 * self.mi() + self.s() }
+    #[verifier::external_body]
+    fn is_after(&self, target: SolarTime) -> (r: bool) ensures r == (self.abs() > target.abs()) { unimplemented!() }   // K: c12_k_time_order
+    #[verifier::external_body]
+    fn get_solar_day(&self) -> (r: SolarDay) ensures r.jdn() == self.jdn() { unimplemented!() }
+    #[verifier::external_body]
+    fn get_lunar_hour(&self) -> (r: LunarHour) ensures r.h() == self.h() { unimplemented!() }
     // V (c12_time_next): distance in seconds
     #[verifier::external_body]
     fn subtract(&self, target: SolarTime) -> (r: isize)
@@ -107,13 +132,17 @@ impl SolarTime {
 }
 impl SolarTerm {
     pub uninterp spec fn ti(&self) -> int;            // absolute second of the term instant (L-TI)
+    pub uninterp spec fn tjdn(&self) -> int;          // its day number and clock hour
+    pub uninterp spec fn th(&self) -> int;
     #[verifier::external_body]
-    fn get_julian_day(&self) -> (r: JulianDay) ensures r.ti() == self.ti() { unimplemented!() }
+    fn get_julian_day(&self) -> (r: JulianDay) ensures r.ti() == self.ti(), r.tjdn() == self.tjdn(), r.th() == self.th() { unimplemented!() }
 }
 impl JulianDay {
     pub uninterp spec fn ti(&self) -> int;
+    pub uninterp spec fn tjdn(&self) -> int;
+    pub uninterp spec fn th(&self) -> int;
     #[verifier::external_body]
-    fn get_solar_time(&self) -> (r: SolarTime) ensures r.abs() == self.ti() { unimplemented!() }
+    fn get_solar_time(&self) -> (r: SolarTime) ensures r.abs() == self.ti(), r.wf_abs(), r.jdn() == self.tjdn(), r.h() == self.th() { unimplemented!() }
 }
 pub open spec fn abs_diff(a: int, b: int) -> int { if a - b < 0 { b - a } else { a - b } }
 
@@ -122,6 +151,7 @@ pub open spec fn abs_diff(a: int, b: int) -> int { if a - b < 0 { b - a } else {
 //@STRUCT file=src/tyme/eightchar/provider.rs struct=DefaultChildLimitProvider derive="Clone, Copy"
 //@STRUCT file=src/tyme/eightchar/provider.rs struct=China95ChildLimitProvider derive="Clone, Copy"
 //@STRUCT file=src/tyme/eightchar/provider.rs struct=LunarSect2ChildLimitProvider derive="Clone, Copy"
+//@STRUCT file=src/tyme/eightchar/provider.rs struct=LunarSect1ChildLimitProvider derive="Clone, Copy"
 
 impl AbstractChildLimitProvider {
     //@EXTRACT file=src/tyme/eightchar/provider.rs impl="impl AbstractChildLimitProvider" fn=next loops=1
@@ -201,6 +231,28 @@ impl LunarSect2ChildLimitProvider {
             r.start_time == birth_time,
     //@END
 }
+
+
+// the double-hour strategy: whole days and whole double-hours between birth and the Jie; 1 day = 4 months, 1 double-hour = 10 days
+pub open spec fn zhi_h(h: int) -> int { if h == 23 { 11 } else { (h + 1) / 2 } }
+pub open spec fn zhi(t: SolarTime) -> int { zhi_h(t.h()) }
+impl LunarSect1ChildLimitProvider {
+    //@EXTRACT file=src/tyme/eightchar/provider.rs impl="impl ChildLimitProvider for LunarSect1ChildLimitProvider" fn=get_info
+    //@body_start
+        proof { lemma_carry_bounds_all(); }
+    //@sig
+        requires birth_time.wf(), birth_time.wf_abs(), birth_time.ord() + 12 * 4000 + 20 <= ORD_MAX,
+                 birth_time.ord() + 200 < OCT_1582 || birth_time.ord() > OCT_1582,
+                 abs_diff(term.ti(), birth_time.abs()) <= 86400 * 32,
+        ensures
+            // double-hours between the two instants, counted by (day, double-hour index with 23:00 counted as the last one)
+            abs_units(birth_time.jdn(), zhi(birth_time), term.tjdn(), zhi_h(term.th())) == 360 * r.year_count + 30 * r.month_count + r.day_count,
+            r.month_count < 12, r.day_count < 30, r.day_count % 10 == 0, r.hour_count == 0, r.minute_count == 0, r.year_count <= 10,
+            r.start_time == birth_time,
+    //@END
+}
+/// 10 days per double-hour: |12 * (jt - jb) + (zt - zb)| * 10
+pub open spec fn abs_units(jb: int, zb: int, jt: int, zt: int) -> int { let t = 12 * (jt - jb) + (zt - zb); 10 * (if t < 0 { -t } else { t }) }
 
 } // verus!
 fn main() {}
